@@ -169,9 +169,11 @@ _rot_row = ('implies(AcqSum(g, old(gs)[j], cols(gs) // 2) % 2 == 1, '
 CONTRACTS[U + 'clifford_rotate'] = dict(
     params=[('g', 'int1'), ('p', 'int'), ('gs', 'int2'), ('ps', 'int1')],
     requires=['len(g) == cols(gs)', 'len(ps) == rows(gs)', 'bits1(g)', 'bits2(gs)'],
-    ensures=['forall(j, 0, rows(gs), %s)' % _rot_row, 'bits2(gs)'],
+    ensures=['forall(j, 0, rows(gs), %s)' % _rot_row, 'bits2(gs)',
+             # the same statement with rows as whole arrays (Xor is the string part of the product)
+             'forall(j, 0, rows(gs), same(gs[j], Xor(old(gs)[j], g)) if AcqSum(g, old(gs)[j], cols(gs) // 2) % 2 == 1 else same(gs[j], old(gs)[j]))'],
     modifies=['gs', 'ps'], returns=('=gs', '=ps'),
-    loops={0: dict(var='j', invariant=['forall(j, 0, j, %s)' % _rot_row if False else
+    loops={0: dict(var='j', invariant=['forall(jj, 0, j, same(gs[jj], Xor(old(gs)[jj], g)) if AcqSum(g, old(gs)[jj], cols(gs) // 2) % 2 == 1 else same(gs[jj], old(gs)[jj]))',
                                        'forall(jj, 0, j, %s)' % _rot_row.replace('[j]', '[jj]'),
                                        'forall(jj, j, L, same(gs[jj], old(gs)[jj]) and ps[jj] == old(ps)[jj])',
                                        'bits2(gs)'])},
